@@ -26,6 +26,25 @@ func normalise(m map[string]interface{}) map[string]interface{} {
 			if a, isArr := v.([]interface{}); isArr && len(a) == 0 {
 				v = map[string]interface{}{}
 			}
+		case "appUnst": // names inside a queue slot are compared as a bag (state conversion re-appends in store order)
+			arr, _ := v.([]interface{})
+			var slots []interface{}
+			for _, e := range arr {
+				pr, _ := e.([]interface{})
+				if len(pr) == 2 {
+					ns, _ := pr[1].([]interface{})
+					strs := make([]string, 0, len(ns))
+					for _, n := range ns {
+						strs = append(strs, fmt.Sprint(n))
+					}
+					sort.Strings(strs)
+					slots = append(slots, []interface{}{pr[0], strings.Join(strs, ",")})
+				}
+			}
+			v = slots
+			if slots == nil {
+				v = []interface{}{}
+			}
 		case "appIx":
 			arr, _ := v.([]interface{})
 			strs := make([]string, 0, len(arr))
